@@ -290,6 +290,10 @@ func runC13Virtual(c *c13Case) *c13Obs {
 	default:
 		var scfg, ccfg *lime.TCPConfig
 		if tls {
+			if c.TLS12 {
+				SetTLSMax(tlsVersion12)
+				defer SetTLSMax(0)
+			}
 			s, cl := TLSConfigs()
 			scfg, ccfg = &lime.TCPConfig{TLSConfig: s}, &lime.TCPConfig{TLSConfig: cl}
 			env.encSel = lime.TLSEncryptionSelector
@@ -342,6 +346,9 @@ func genC13(rt *rapid.T, transports []string) *c13Case {
 		Wiring:    rapid.SampledFrom([]string{"channel", "channel", "client"}).Draw(rt, "wiring"),
 		ChanBuf:   rapid.SampledFrom([]int{0, 1, 8}).Draw(rt, "chanBuf"),
 		InprocBuf: rapid.SampledFrom([]int{0, 1, 8}).Draw(rt, "inprocBuf"),
+	}
+	if c.Transport == "fconn-tls" {
+		c.TLS12 = rapid.Bool().Draw(rt, "tls12")
 	}
 	if c.Wiring == "client" {
 		c.Initiator = rapid.SampledFrom([]string{"client-close", "server-close", "server-finish", "server-fail"}).Draw(rt, "initiator")
